@@ -2015,7 +2015,7 @@ def run(tier: str, seed: int, replay: str | None = None) -> int:
     n_node = 1500 if tier == "quick" else 15000
     n_assoc = 150 if tier == "quick" else 1500
     n_child_docs = 150 if tier == "quick" else 1500
-    n_history = 40 if tier == "quick" else 400
+    n_history = 30 if tier == "quick" else 300
     n_href = 1500 if tier == "quick" else 15000
     docs: list = []
     ev = 0
